@@ -2694,16 +2694,20 @@ public:
     interval_t lb_i = to_interval(lb_idx);
     auto lb = lb_i.singleton();
     if (!lb) {
-      CRAB_WARN("array adaptive store range ignored because ", "lower bound",
-                lb_idx, " is not constant");
+      CRAB_WARN("array adaptive store range forgets the array because ",
+                "lower bound", lb_idx, " is not constant");
+      // we don't know which cells are overwritten
+      forget_array(a);
       return;
     }
 
     interval_t ub_i = to_interval(ub_idx);
     auto ub = ub_i.singleton();
     if (!ub) {
-      CRAB_WARN("array adaptive store range ignored because ", "upper bound ",
-                ub_idx, " is not constant");
+      CRAB_WARN("array adaptive store range forgets the array because ",
+                "upper bound ", ub_idx, " is not constant");
+      // we don't know which cells are overwritten
+      forget_array(a);
       return;
     }
 
@@ -2724,6 +2728,8 @@ public:
            e_sz);
       CRAB_WARN("array adaptive store range will ignore indexes greater than ",
                 e);
+      // the cells greater than e are also overwritten
+      forget_array(a);
     }
 
     for (number_t i = *lb; i <= e;) {
